@@ -2878,7 +2878,19 @@ class WBEMConnection:  # pylint: disable=too-many-instance-attributes
         Get returned objects and validate that the types correspond to the types
         for Associators and References
         """
-        objects = [] if result is None else [x[2] for x in result[0][2]]
+        objects = []
+        if result is not None:
+            for x in result[0][2]:
+                # Each item must be an unpacked OBJECTPATH or VALUE.OBJECT*
+                # element, i.e. a tuple (name, attrs, object)
+                if not isinstance(x, tuple):
+                    raise CIMXMLParseError(
+                        _format("Unexpected {0} object in the result of an "
+                                "association operation (expecting OBJECTPATH "
+                                "or VALUE.OBJECTWITHPATH child elements)",
+                                x.__class__.__name__),
+                        conn_id=self.conn_id)
+                objects.append(x[2])
 
         if isinstance(ObjectName, CIMInstanceName):
             # instance-level invocation
@@ -2910,7 +2922,19 @@ class WBEMConnection:  # pylint: disable=too-many-instance-attributes
         CIMInstanceName if the request was CIMInstanceName or
         CIMClassName if the request was CIMClassName
         """
-        objects = [] if result is None else [x[2] for x in result[0][2]]
+        objects = []
+        if result is not None:
+            for x in result[0][2]:
+                # Each item must be an unpacked OBJECTPATH or VALUE.OBJECT*
+                # element, i.e. a tuple (name, attrs, object)
+                if not isinstance(x, tuple):
+                    raise CIMXMLParseError(
+                        _format("Unexpected {0} object in the result of an "
+                                "association operation (expecting OBJECTPATH "
+                                "or VALUE.OBJECTWITHPATH child elements)",
+                                x.__class__.__name__),
+                        conn_id=self.conn_id)
+                objects.append(x[2])
 
         if isinstance(ObjectName, CIMInstanceName):
             # instance-level invocation
